@@ -9,10 +9,10 @@ RULE = ("abstract programs (one register - named or anonymous -, lets - named, a
         "either kind, declared before or after anonymous ones -, gates on literal / let indices, nested sequential / parallel blocks, loops "
         "with literal / let counts, subcircuit blocks with literal / let / default counts, a body that starts with prepare_all, a subcircuit, "
         "a loop or block whose first statement (recursively) is one of those, or neither) rendered three ways: Jaqal text, CircuitBuilder "
-        "calls, a Q-syntax function; the three circuits must be equal (Q-syntax adds prepare_all/measure_all exactly when the body does not "
+        "calls, a Q-syntax function (called twice); the circuits must be equal (Q-syntax adds prepare_all/measure_all exactly when the body does not "
         "already begin with a prepare or a subcircuit); non-trivial = program has an anonymous declaration or a nested first statement")
 BOUND = "register size <= 3, <= 3 lets, depth <= 3, <= 3 statements per block"
-BUDGET_S = {"quick": 40, "thorough": 600}
+BUDGET_S = {"quick": 40, "thorough": 400}
 
 
 def gen(rng, i):
@@ -245,7 +245,11 @@ def via_qsyntax(p):
         for s in p["body"]:
             emit(s)
 
-    return prog()
+    # the decorated function is called twice: every call builds the circuit afresh (history: no state of an earlier
+    # call may leak into a later one)
+    first = prog()
+    second = prog()
+    return first, second
 
 
 def check(pl):
@@ -261,9 +265,12 @@ def check(pl):
     except JaqalError as ex:
         return f"the builder rendering is rejected: {ex}"
     try:
-        cq = via_qsyntax(p)
+        cq, cq2 = via_qsyntax(p)
     except JaqalError as ex:
-        return f"the Q-syntax rendering is rejected: {ex}\n{text}"
+        return f"the Q-syntax rendering is rejected (the decorated function is called twice): {ex}\n{text}"
+    if not (cq == cq2 and ct == cq2):
+        from jaqalpaq.generator import generate_jaqal_program
+        return f"calling the same Q-syntax function a second time builds a different circuit\n--- first\n{generate_jaqal_program(cq)}\n--- second\n{generate_jaqal_program(cq2)}"
     if not (ct == cb and cb == ct):
         return f"text and builder API build different circuits\n{text}"
     if not (ct == cq and cq == ct):
